@@ -128,7 +128,7 @@ def run_case(case, ctx):
         return {'violations': out, 'keys': []}
     # every well-framed packet of the peer must be accepted whatever the segmentation: the report (which includes the
     # probe-derived sizes and fingerprints) must equal the one obtained when every message arrives in one piece
-    if case['net'].get('seg', {}).get('mode', 'msg') != 'msg':
+    if case['net'].get('seg', {}).get('mode', 'msg') != 'msg' and not case.get('faults'):      # with a reset in play, what is read before it is a matter of timing
         plan_ref = copy.deepcopy(plan)
         plan_ref['net'] = {'rtt_us': 200, 'seg': {'mode': 'msg'}}
         ref = ctx.run(plan_ref)
